@@ -7,6 +7,15 @@ BASELINE_OFF = "for m in $(cat /w/out/gomods.txt); do MF=$(cd /repo/$m && . /w/o
 
 # id -> (level text, level_note, technique)
 CLAIMED = {
+ "C07": ("structural analysis of the refresh rule: refresh() reachable only from the detector under exactly the nine-conjunct rule (truth-table equivalence), responses are the exact complement, exactly one count per qualifying completion, gotResp's effect set, 64-bit guarded window arithmetic, typestate of the refreshing flag (test-and-set in the critical section, one creation, every path registers or resets), refresh() leaves the serving connection untouched, the swap performs the complete take-over once",
+         "the timed meaning of the conjuncts (clock values, >= vs > at thresholds) is not decided; saturation of the 64-bit window is checked structurally (guarded doubling), not numerically",
+         "static analysis: reaching-condition truth-table equivalence (9 atoms) + typestate/must-pass-through + effect summaries on go/ssa"),
+ "C09": ("structural analysis of the round-robin strategy: dispatch ⇔ BIND ∧ ROUND_ROBIN, one atomic cursor bump and index = cursor mod len(list) in one critical section, append-only creation-ordered list, the non-empty-list lemma, waiter returns only after READY observed under the read lock or on context end, lock-free blocking, no lost wake-up (signal read under the lock; every recorded state report closes and re-makes it)",
+         "the n x k fairness count is a consequence of cursor+modulo+append-only for < 2^32 BINDs and unchanged composition; the arithmetic is not machine-checked",
+         "static analysis: reaching-condition truth tables + who-may-write + lock-state facts + must-pass-through on go/ssa"),
+ "C20": ("structural analysis of address propagation: list stored before any possible creation and on every path, every creation reads gb.addrs in its locked critical section, the containers receiving NewSubConn results are derived from the code and each is covered by a push loop (UpdateAddresses(new list) + Connect on every iteration path, on every non-rejected update path), ResolverError has an empty effect set",
+         "what gRPC does with UpdateAddresses/Connect is outside the verdict",
+         "static analysis: provenance + dominance/ordering + effect summaries on go/ssa"),
  "C01": ("structural analysis of the affinity-key table over all paths: allowed writers, no re-binding of a bound key, BIND/UNBIND bookkeeping only on the success path of the matching command with keys from reply/request and the connection of the slot the call ran on, request-key extraction exactly for configured BOUND/UNBIND calls, bound-slot lookup returns the home slot exactly when READY and another slot only with fallback, bound lookup precedes load-based selection, and the refresh swap re-keys/purges every connection-indexed table",
          "history-level statements (which picker gRPC uses, 'until an UNBIND completes') are not decided; the Shutdown retire point is outside the property",
          "static analysis: who-may-write/call + reaching-condition truth tables + provenance on go/ssa"),
